@@ -15,6 +15,8 @@ CONSTANTS
   KeepRefs = TRUE
   SafeFail = TRUE
   CancelWakes = FALSE
+  JoinWatches = TRUE
+  CloseReaderOnKill = TRUE
 SYMMETRY Perm
 INVARIANT AtMostOnce
 INVARIANT CancelMeansNeverRun
